@@ -473,6 +473,34 @@ pub fn run(ctx: &Ctx, rep: &mut Report) {
         judge_claims_by_solver(&p, &sc, &res, &tb, &tb4, rep);
         n -= 1;
     }
+    // the 4-man tables themselves: roots drawn from each loaded table by value (short wins are rare among random
+    // placements: all of KNNK, KBKB, KBKN, KNKN and most of KBNK / KBBK would never be visited otherwise)
+    let mut n = ctx.n(6_000, 300_000);
+    while n > 0 && ctx.time_left() && !tb4.tables.is_empty() {
+        let t = &tb4.tables[rng.gen_range(0..tb4.tables.len())];
+        let short = rng.gen_bool(0.7);
+        let Some((p, v)) = t.sample(&mut rng, |v| if short { matches!(v, Val::Win(k) if k <= 5) } else { true }, 2_000_000) else {
+            rep.count("four_man_table_without_short_win_drawn", 1);
+            n -= 1;
+            continue;
+        };
+        let p = if rng.gen_bool(0.5) { p.mirror() } else { p };
+        if p.legal_moves().is_empty() {
+            continue;
+        }
+        let depths: Vec<usize> = match v {
+            Val::Win(k) if k <= 5 => vec![k as usize, k as usize + 1, k as usize + 2],
+            _ => vec![rng.gen_range(1..=5)],
+        };
+        for d in depths {
+            let wk = *many.choose(&mut rng).unwrap();
+            let sc = fresh(&mut rng, &p.fen(), d, wk);
+            let Some(res) = run_one(&sc, &ev) else { continue };
+            judge_claims_by_solver(&p, &sc, &res, &tb, &tb4, rep);
+            n = n.saturating_sub(1);
+        }
+        rep.count(&format!("four_man_roots_{}", t.name()), 1);
+    }
     // beyond the tablebases: solver-proved mates in richer material
     let mut n = ctx.n(3_000, 200_000);
     let empty: HashSet<PKey> = HashSet::new();
